@@ -49,6 +49,10 @@ CHECKS = {
          "explicit-state model of the retry protocol; every history up to the depth bound over a 19-event alphabet replayed on fresh real Conns, model and implementation compared after every event",
          "The model (accepted / pass-through flags / armed-by-HRR / retried / dead) is stepped alongside the real Conn for every history of length 4 (thorough 5) over 14 client and 5 backend whole-record events, from three initial situations; bytes delivered, error class, alert bytes and close are compared at every step; reachable model states and transitions are counted.",
          "model written from the property statement; whole-record events (fragmentation is C07); reference sender validated against crypto/tls", "§3 C06"),
+ "C01": ("exploration", "E1 enum",
+         "exhaustive configuration grid through three real stacks (crypto/tls client, ech.Conn, crypto/tls backend) with a direct handshake of the same configuration as differential oracle",
+         "The full product (quick: full product over a reduced domain per dimension) of client curve lists (hence HelloRetryRequest), ALPN lists on both sides, server-name lengths 3..253, cold/warm session cache (PSK resumption inside the inner hello), client certificates up to 17 KB, backend certificates up to 40 KB, key sets incl. keys sharing a config id, three AEADs and fresh/stale client configs is driven end to end in memory; acceptance, application data both ways, server name, ALPN list, negotiated protocol and resumption are compared with a direct handshake; stale configs must yield the public-name server's retry configs, which must then work.",
+         "crypto/tls is trusted as the conforming client/backend; stacks run goroutines outside any scheduler, so a failure is reported only when it reproduces 5/5", "§3 C01"),
 }
 
 NOT_YET = {}
